@@ -358,6 +358,39 @@ fn truncate_value(v: &Value, max: usize) -> Value {
 }
 
 // ---------------------------------------------------------------------------
+// per-case CPU-time watchdog (inside worker processes)
+
+static CASE_START_CPU_MS: std::sync::atomic::AtomicU64 = std::sync::atomic::AtomicU64::new(u64::MAX);
+
+fn process_cpu_ms() -> u64 {
+    let mut ts = libc::timespec { tv_sec: 0, tv_nsec: 0 };
+    unsafe {
+        libc::clock_gettime(libc::CLOCK_PROCESS_CPUTIME_ID, &mut ts);
+    }
+    ts.tv_sec as u64 * 1000 + ts.tv_nsec as u64 / 1_000_000
+}
+
+/// Mark the start of a case for the watchdog.
+pub fn case_started() {
+    CASE_START_CPU_MS.store(process_cpu_ms(), std::sync::atomic::Ordering::Relaxed);
+}
+
+/// Abort the process when a single case has used more CPU time than the limit (default 60 s;
+/// analysing a generated case takes milliseconds). CPU time, not wall clock: the verdict does
+/// not depend on the load of the machine. The parent re-runs the culprit alone to confirm.
+pub fn start_case_watchdog() {
+    let limit_ms: u64 = std::env::var("VERIF_CASE_CPU_LIMIT_S").ok().and_then(|s| s.parse().ok()).unwrap_or(60) * 1000;
+    std::thread::spawn(move || loop {
+        std::thread::sleep(std::time::Duration::from_millis(500));
+        let start = CASE_START_CPU_MS.load(std::sync::atomic::Ordering::Relaxed);
+        if start != u64::MAX && process_cpu_ms().saturating_sub(start) > limit_ms {
+            eprintln!("VERIF_CASE_CPU_LIMIT: a single case used more than {} s of CPU time", limit_ms / 1000);
+            std::process::abort();
+        }
+    });
+}
+
+// ---------------------------------------------------------------------------
 // shard worker (runs inside its own process)
 
 pub fn shard_seed(seed: u64, shard: u64, id: &str) -> u64 {
@@ -381,6 +414,8 @@ pub fn run_shard(
 ) -> Stats {
     let findings = load_findings();
     let mut stats = Stats::default();
+    start_case_watchdog();
+    case_started();
     if do_enumerate {
         let mut ctx = Ctx {
             thorough: tier == Tier::Thorough,
@@ -438,7 +473,7 @@ pub fn run_shard(
         failure_persistence: None,
         rng_seed: RngSeed::Fixed(shard_seed(seed, shard, e.id)),
         max_shrink_iters: if tier == Tier::Thorough { 6000 } else { 3000 },
-        max_shrink_time: 0,
+        max_shrink_time: if tier == Tier::Thorough { 300_000 } else { 120_000 },
         max_global_rejects: 1_000_000,
         verbose: 0,
         ..Config::default()
@@ -461,6 +496,7 @@ pub fn run_shard(
             thorough: tier == Tier::Thorough,
             ..Default::default()
         };
+        case_started();
         let out = match crate::adapter::guarded(|| (e.run)(&choices, tier, &mut ctx)) {
             Ok(o) => o,
             Err(p) => {
@@ -782,6 +818,7 @@ pub fn run_check(e: &Entry, tier: Tier, seed: u64) -> RunOutcome {
             exit = 1;
         }
     }
+    let mut deaths = 0;
     for (s, mut c, out, cur) in children {
         let status = c.wait();
         let ok = status.as_ref().map(|st| st.success()).unwrap_or(false);
@@ -814,7 +851,13 @@ pub fn run_check(e: &Entry, tier: Tier, seed: u64) -> RunOutcome {
                     e.id, status
                 );
                 eprintln!("{msg}");
-                let crash = handle_worker_death(e, tier, seed, &culprit, &work);
+                deaths += 1;
+                if deaths > 3 {
+                    // three deaths were already examined in this run; the verdict is settled
+                    eprintln!("further worker deaths are not examined one by one");
+                    continue;
+                }
+                let crash = handle_worker_death(e, tier, seed, &culprit, &work, deaths == 1);
                 match crash {
                     Some((p, v)) => {
                         if match_finding(&findings, e.id, &v).is_some() {
@@ -899,9 +942,11 @@ fn handle_worker_death(
     seed: u64,
     culprit: &str,
     work: &Path,
+    shrink: bool,
 ) -> Option<(PathBuf, Violation)> {
     let choices: Vec<u32> = serde_json::from_str(culprit.trim()).ok()?;
     let exe = std::env::current_exe().ok()?;
+    let t_start = Instant::now();
     let dies = |c: &[u32]| -> Option<String> {
         let f = work.join("probe.json");
         fs::write(&f, serde_json::to_string(c).ok()?).ok()?;
@@ -923,9 +968,10 @@ fn handle_worker_death(
     let how = dies(&choices)?;
     // crude shrinking by truncation and zeroing, each probe in a fresh process
     let mut best = choices.clone();
-    let mut budget = 60;
+    let mut budget = if shrink { 60 } else { 0 };
     let mut len = best.len() / 2;
-    while len >= 1 && budget > 0 {
+    // every probe of a hang costs the full CPU limit: bound shrinking by time as well
+    while len >= 1 && budget > 0 && t_start.elapsed().as_secs() < 240 {
         budget -= 1;
         if best.len() > len {
             let cand: Vec<u32> = best[..best.len() - len].to_vec();
